@@ -20,6 +20,7 @@ func (o *Optimizer) init() error {
 	if err != nil {
 		return err
 	}
+	simYield("optimizer.parsed")
 	o.stmt = stmt
 	switch vstmt := stmt.(type) {
 	case *SelectStmt:
@@ -344,6 +345,7 @@ func (o *Optimizer) BuildPlan(s Storage) (FinalPlan, error) {
 	if err != nil {
 		return nil, err
 	}
+	simYield("optimizer.planned")
 	err = ret.Init()
 	if err != nil {
 		return nil, err
